@@ -244,6 +244,13 @@ func walkString(s string, f func(i int, p lsp.Position) bool) {
 	lastCR := false
 
 	for i, r := range s {
+		if r == '\n' && lastCR {
+			// The \n of a \r\n sequence belongs to the same line break as the
+			// \r; there is no position between the two. Generating a pair for
+			// it would map the start of the next line to the index of the \n.
+			lastCR = false
+			continue
+		}
 		if !f(i, p) {
 			return
 		}
